@@ -9,11 +9,13 @@
 
    One action per stage:
 
-     LoopArrive(p, id)     event loop: one copy of id written by forwarder p arrives.
-                           not subscribed and not relaying -> ignored; id already seen ->
-                           duplicate (shouldPush); else Push: to valQ when there are
-                           validators or a signature (dropped when the queue is full),
-                           otherwise markSeen + publish at once (pushMsg).
+     LoopArrive(p, batch)  event loop: one RPC of forwarder p whose Publish list is `batch`
+                           (a message may be repeated).  not subscribed and not relaying ->
+                           ignored; shouldPush over the WHOLE list first: id already seen ->
+                           duplicate; the rest waits in loopQ.
+     LoopPush              pushMsg of the next one: to valQ when there are validators or a
+                           signature (dropped when the queue is full), otherwise markSeen and,
+                           only if the mark was fresh, publish at once.
      WorkerTake / WorkerSig / WorkerMarkSeen(w)
                            a validation worker takes the head of valQ, verifies the
                            signature, then atomically Adds the id to the seen cache: a
@@ -68,6 +70,7 @@ CONSTANTS
     NVmax,      \* validators are numbered 1..cfg.nv <= NVmax in registration order (defaults first, topic validator last)
     QCap,       \* capacity of the validation queue
     MaxCopies,  \* copies of one id that may arrive
+    MaxBatch,   \* messages in one incoming RPC (its Publish list may repeat a message)
     Verdicts,   \* what a validator may return: subset of {"A","R","I","U"}  (U = out-of-range value, e.g. 7)
     CfgSpace,   \* the configurations explored (a set of cfg records, see MCIngest)
     Bug
@@ -77,6 +80,7 @@ VARIABLES
     seen,       \* set of ids in the seen cache (no expiry here: see TimeCache.tla)
     sent,       \* sent[id] = copies that have arrived so far
     valQ,       \* validation queue: sequence of [id, src]
+    loopQ,      \* messages of the RPC being handled that passed shouldPush and await pushMsg: [id, src, late]
     worker,     \* worker[w] = [st, id, src, k, res]
     jobs,       \* set of asynchronous validation jobs [id, src, inl, stage, run, acc]
     gUsed,      \* tokens of the global validation throttle in use
@@ -90,7 +94,7 @@ VARIABLES
     drec,       \* score.go delivery record: drec[id] = [status, peers]
     valCalls, verdictOf, expect, finals, origin, copiesIn, qfull
 
-pipe == <<seen, sent, valQ, worker, jobs, gUsed, vUsed, orphans, sendQ, local>>
+pipe == <<seen, sent, valQ, loopQ, worker, jobs, gUsed, vUsed, orphans, sendQ, local>>
 outs == <<delivered, forwarded, penalised, drec>>
 mons == <<valCalls, verdictOf, expect, finals, origin, copiesIn, qfull>>
 vars == <<cfg, pipe, outs, mons>>
@@ -122,14 +126,16 @@ LIdle == [st |-> "idle", id |-> "-", k |-> 0, res |-> "A", ret |-> "-", dup |-> 
 
 ScoreNop == UNCHANGED <<drec, penalised>>
 
-ScoreDup(p, id) ==                                   \* peerScore.DuplicateMessage
-    LET d == drec[id] IN
-    IF p \in d.peers THEN ScoreNop
-    ELSE IF d.status \in {"unknown", "valid"}
-      THEN drec' = [drec EXCEPT ![id].peers = @ \cup {p}] /\ UNCHANGED penalised
-    ELSE IF d.status = "invalid"
-      THEN penalised' = [penalised EXCEPT ![p][id] = Cap3(@ + 1)] /\ UNCHANGED drec
-    ELSE ScoreNop                                    \* throttled / ignored: nothing
+\* peerScore.DuplicateMessage as a function of the score state st = [d, pn]
+DupF(st, p, id) ==
+    LET d == st.d[id] IN
+    IF p \in d.peers THEN st
+    ELSE IF d.status \in {"unknown", "valid"} THEN [st EXCEPT !.d[id].peers = @ \cup {p}]
+    ELSE IF d.status = "invalid" THEN [st EXCEPT !.pn[p][id] = Cap3(@ + 1)]
+    ELSE st                                          \* throttled / ignored: nothing
+
+ScoreDup(p, id) ==
+    LET r == DupF([d |-> drec, pn |-> penalised], p, id) IN drec' = r.d /\ penalised' = r.pn
 
 ScoreReject(src, id, reason) ==                      \* peerScore.RejectMessage; reason: failed / ignored / throttled
     LET d   == drec[id]
@@ -157,7 +163,7 @@ Counted(p, id) == copiesIn' = [copiesIn EXCEPT ![p][id] = Cap3(@ + 1)]
 -----------------------------------------------------------------------------
 Init ==
     /\ cfg \in CfgSpace
-    /\ seen = {} /\ sent = [i \in Ids |-> 0] /\ valQ = <<>>
+    /\ seen = {} /\ sent = [i \in Ids |-> 0] /\ valQ = <<>> /\ loopQ = <<>>
     /\ worker = [w \in Workers |-> Idle]
     /\ jobs = {} /\ gUsed = 0 /\ vUsed = [v \in 1..NVmax |-> 0] /\ orphans = {}
     /\ sendQ = <<>> /\ local = [c \in Calls |-> LIdle]
@@ -174,42 +180,63 @@ Init ==
 -----------------------------------------------------------------------------
 \* event loop, inbound
 
-LoopArrive(p, id) ==
-    /\ sent[id] < MaxCopies
-    /\ sent' = [sent EXCEPT ![id] = @ + 1]
+\* handleIncomingRPC: shouldPush runs over the WHOLE Publish list of the RPC before any pushMsg, so two copies
+\* of one id inside one RPC both pass the seen-check; what passed waits in loopQ for LoopPush.
+Occ(batch, id) == Cardinality({i \in DOMAIN batch : batch[i] = id})
+KnownDup(id)   == id \in seen /\ Bug # "noSeenCheck"
+
+RECURSIVE DupFold(_, _, _, _)
+DupFold(st, p, batch, i) ==
+    IF i > Len(batch) THEN st
+    ELSE DupFold(IF KnownDup(batch[i]) THEN DupF(st, p, batch[i]) ELSE st, p, batch, i + 1)
+
+LoopArrive(p, batch) ==
+    /\ loopQ = <<>>
+    /\ \A id \in Ids : sent[id] + Occ(batch, id) <= MaxCopies
+    /\ sent' = [id \in Ids |-> sent[id] + Occ(batch, id)]
     /\ IF ~Interested
-         THEN UNCHANGED <<cfg, seen, valQ, worker, jobs, gUsed, vUsed, orphans, sendQ, local, outs, mons>>
-       ELSE IF id \in seen /\ Bug # "noSeenCheck"
-         THEN \* shouldPush: already seen -> duplicate
-              /\ ScoreDup(p, id) /\ Counted(p, id)
-              /\ UNCHANGED <<cfg, seen, valQ, worker, jobs, gUsed, vUsed, orphans, sendQ, local, delivered, forwarded,
-                             valCalls, verdictOf, expect, finals, origin, qfull>>
-       ELSE IF cfg.nv > 0 \/ cfg.signed
+         THEN UNCHANGED <<loopQ, drec, penalised, copiesIn>>
+         ELSE LET r    == DupFold([d |-> drec, pn |-> penalised], p, batch, 1)       \* already seen -> duplicate (traced)
+                  pass == SelectSeq(batch, LAMBDA x : ~KnownDup(x)) IN
+              /\ drec' = r.d /\ penalised' = r.pn
+              /\ copiesIn' = [q \in Fwd |-> [id \in Ids |->
+                     IF q = p /\ KnownDup(id) THEN Cap3(copiesIn[q][id] + Occ(batch, id)) ELSE copiesIn[q][id]]]
+              /\ loopQ' = [k \in 1..Len(pass) |-> [id |-> pass[k], src |-> p, late |-> pass[k] \in seen]]
+    /\ UNCHANGED <<cfg, seen, valQ, worker, jobs, gUsed, vUsed, orphans, sendQ, local, delivered, forwarded,
+                   valCalls, verdictOf, expect, finals, origin, qfull>>
+
+\* pushMsg of the next message that passed shouldPush
+LoopPush ==
+    /\ loopQ # <<>>
+    /\ loopQ' = Tail(loopQ)
+    /\ LET id == Head(loopQ).id
+           p  == Head(loopQ).src IN
+       IF cfg.nv > 0 \/ cfg.signed
          THEN \* validation.Push
               IF Len(valQ) < QCap
                 THEN /\ valQ' = Append(valQ, [id |-> id, src |-> p])
-                     /\ UNCHANGED <<cfg, seen, worker, jobs, gUsed, vUsed, orphans, sendQ, local, outs, mons>>
-                ELSE /\ qfull' = [qfull EXCEPT ![id] = @ \cup {<<p, id \in seen>>}]   \* RejectValidationQueueFull: nobody is penalised
-                     /\ UNCHANGED <<cfg, seen, valQ, worker, jobs, gUsed, vUsed, orphans, sendQ, local, outs,
-                                    valCalls, verdictOf, expect, finals, origin, copiesIn>>
-       ELSE \* nothing to validate: pushMsg marks the id seen and publishes within the same loop iteration
-            IF id \notin seen
+                     /\ UNCHANGED <<seen, outs, mons>>
+                ELSE /\ qfull' = [qfull EXCEPT ![id] = @ \cup {<<p, Head(loopQ).late>>}]   \* RejectValidationQueueFull: nobody is penalised
+                     /\ UNCHANGED <<seen, valQ, outs, valCalls, verdictOf, expect, finals, origin, copiesIn>>
+       ELSE \* nothing to validate: pushMsg marks the id seen and publishes only if the mark was fresh
+            IF id \notin seen \/ Bug = "pushIgnoreResult"
               THEN /\ seen' = IF Bug = "pushNoMark" THEN seen ELSE seen \cup {id}
                    /\ Deliver(id) /\ ScoreDeliver(id) /\ Counted(p, id)
                    /\ finals' = [finals EXCEPT ![id] = @ \cup {"A"}]
                    /\ origin' = [origin EXCEPT ![id] = "remote"]
-                   /\ UNCHANGED <<cfg, valQ, worker, jobs, gUsed, vUsed, orphans, sendQ, local, valCalls, verdictOf, expect, qfull>>
-              ELSE UNCHANGED <<cfg, seen, valQ, worker, jobs, gUsed, vUsed, orphans, sendQ, local, outs, mons>>
+                   /\ UNCHANGED <<valQ, valCalls, verdictOf, expect, qfull>>
+              ELSE UNCHANGED <<seen, valQ, outs, mons>>        \* marked meanwhile (same RPC, local publish): dropped silently
+    /\ UNCHANGED <<cfg, sent, worker, jobs, gUsed, vUsed, orphans, sendQ, local>>
 
 \* event loop, outbound
 LoopPublish ==
-    /\ sendQ # <<>>
+    /\ sendQ # <<>> /\ loopQ = <<>>       \* the loop is still inside handleIncomingRPC otherwise
     /\ LET m == Head(sendQ) IN
          /\ sendQ' = Tail(sendQ)
          /\ Deliver(m.id)
          /\ IF m.remote THEN ScoreDeliver(m.id) ELSE ScoreNop
          /\ finals' = [finals EXCEPT ![m.id] = @ \cup {"A"}]
-    /\ UNCHANGED <<cfg, seen, sent, valQ, worker, jobs, gUsed, vUsed, orphans, local, valCalls, verdictOf, expect, origin, copiesIn, qfull>>
+    /\ UNCHANGED <<cfg, loopQ, seen, sent, valQ, worker, jobs, gUsed, vUsed, orphans, local, valCalls, verdictOf, expect, origin, copiesIn, qfull>>
 
 -----------------------------------------------------------------------------
 \* validation workers
@@ -219,13 +246,13 @@ WorkerTake(w) ==
     /\ worker' = [worker EXCEPT ![w] = [st |-> IF cfg.signed THEN "sig" ELSE "mark", id |-> Head(valQ).id,
                                         src |-> Head(valQ).src, k |-> 0, res |-> "A"]]
     /\ valQ' = Tail(valQ)
-    /\ UNCHANGED <<cfg, seen, sent, jobs, gUsed, vUsed, orphans, sendQ, local, outs, mons>>
+    /\ UNCHANGED <<cfg, loopQ, seen, sent, jobs, gUsed, vUsed, orphans, sendQ, local, outs, mons>>
 
 \* every signature is valid here (the invalid classes are C03's extension point)
 WorkerSig(w) ==
     /\ worker[w].st = "sig"
     /\ worker' = [worker EXCEPT ![w].st = "mark"]
-    /\ UNCHANGED <<cfg, seen, sent, valQ, jobs, gUsed, vUsed, orphans, sendQ, local, outs, mons>>
+    /\ UNCHANGED <<cfg, loopQ, seen, sent, valQ, jobs, gUsed, vUsed, orphans, sendQ, local, outs, mons>>
 
 AfterMark  == IF cfg.inl = {} THEN (IF Bug = "markSeenLate" THEN "latemark" ELSE "fin") ELSE "inline"
 AfterInl   == IF Bug = "markSeenLate" THEN "latemark" ELSE "fin"
@@ -248,13 +275,13 @@ WorkerMarkSeen(w) ==
          THEN /\ worker' = [worker EXCEPT ![w].st = AfterMark, ![w].k = 1]
               /\ UNCHANGED <<seen, origin, copiesIn, drec, penalised>>
          ELSE MarkOrDup(w, AfterMark)
-    /\ UNCHANGED <<cfg, sent, valQ, jobs, gUsed, vUsed, orphans, sendQ, local, delivered, forwarded,
+    /\ UNCHANGED <<cfg, loopQ, sent, valQ, jobs, gUsed, vUsed, orphans, sendQ, local, delivered, forwarded,
                    valCalls, verdictOf, expect, finals, qfull>>
 
 WorkerLateMark(w) ==
     /\ worker[w].st = "latemark"
     /\ MarkOrDup(w, "fin")
-    /\ UNCHANGED <<cfg, sent, valQ, jobs, gUsed, vUsed, orphans, sendQ, local, delivered, forwarded,
+    /\ UNCHANGED <<cfg, loopQ, sent, valQ, jobs, gUsed, vUsed, orphans, sendQ, local, delivered, forwarded,
                    valCalls, verdictOf, expect, finals, qfull>>
 
 \* monitors of one validator call that returns vd
@@ -272,7 +299,7 @@ WorkerInline(w, vd) ==
          /\ worker' = [worker EXCEPT ![w].res = IF r = "R" THEN "R" ELSE IF r = "I" THEN "I" ELSE @,
                                      ![w].st  = IF r = "R" \/ x.k = Len(InlineVals) THEN AfterInl ELSE "inline",
                                      ![w].k   = @ + 1]
-    /\ UNCHANGED <<cfg, seen, sent, valQ, jobs, gUsed, vUsed, orphans, sendQ, local, outs, finals, origin, copiesIn, qfull>>
+    /\ UNCHANGED <<cfg, loopQ, seen, sent, valQ, jobs, gUsed, vUsed, orphans, sendQ, local, outs, finals, origin, copiesIn, qfull>>
 
 Final(id, f) == finals' = [finals EXCEPT ![id] = @ \cup {f}]
 
@@ -296,7 +323,7 @@ WorkerFinish(w) ==
                    /\ UNCHANGED <<jobs, gUsed, sendQ, expect>>
             ELSE /\ sendQ' = Append(sendQ, [id |-> x.id, src |-> x.src, remote |-> TRUE])
                  /\ ScoreNop /\ UNCHANGED <<jobs, gUsed, finals, expect>>
-    /\ UNCHANGED <<cfg, seen, sent, valQ, vUsed, orphans, local, delivered, forwarded, valCalls, verdictOf, origin, copiesIn, qfull>>
+    /\ UNCHANGED <<cfg, loopQ, seen, sent, valQ, vUsed, orphans, local, delivered, forwarded, valCalls, verdictOf, origin, copiesIn, qfull>>
 
 -----------------------------------------------------------------------------
 \* asynchronous validators
@@ -309,7 +336,7 @@ AsyncStart(j) ==
          /\ valCalls' = [v \in 1..NVmax |-> IF v \in free THEN [valCalls[v] EXCEPT ![j.id] = Cap3(@ + 1)] ELSE valCalls[v]]
          /\ expect' = IF thr # {} THEN [expect EXCEPT ![j.id] = Max2(@, "T")] ELSE expect
          /\ jobs' = (jobs \ {j}) \cup {[j EXCEPT !.stage = "run", !.run = free, !.acc = IF thr # {} THEN "T" ELSE "A"]}
-    /\ UNCHANGED <<cfg, seen, sent, valQ, worker, gUsed, orphans, sendQ, local, outs, verdictOf, finals, origin, copiesIn, qfull>>
+    /\ UNCHANGED <<cfg, loopQ, seen, sent, valQ, worker, gUsed, orphans, sendQ, local, outs, verdictOf, finals, origin, copiesIn, qfull>>
 
 \* what the end of a job does to sendQ, the score and the monitors
 JobEnds(j, result) ==
@@ -336,7 +363,7 @@ AsyncReturn(j, v, vd) ==
                    /\ JobEnds(j, "R")
               ELSE /\ jobs' = (jobs \ {j}) \cup {[j EXCEPT !.run = @ \ {v}, !.acc = Comb(@, r)]}
                    /\ UNCHANGED <<gUsed, orphans, sendQ, finals, drec, penalised>>
-    /\ UNCHANGED <<cfg, seen, sent, valQ, worker, local, delivered, forwarded, valCalls, origin, copiesIn, qfull>>
+    /\ UNCHANGED <<cfg, loopQ, seen, sent, valQ, worker, local, delivered, forwarded, valCalls, origin, copiesIn, qfull>>
 
 AsyncDone(j, v, vd)    == AsyncReturn(j, v, vd)
 AsyncTimeout(j, v, vd) == v \in cfg.tmo /\ AsyncReturn(j, v, vd)   \* the validator returns vd when its context ends
@@ -345,14 +372,14 @@ AsyncCombine(j) ==
     /\ j \in jobs /\ j.stage = "run" /\ j.run = {}
     /\ jobs' = jobs \ {j} /\ gUsed' = gUsed - 1
     /\ JobEnds(j, j.acc)
-    /\ UNCHANGED <<cfg, seen, sent, valQ, worker, vUsed, orphans, local, delivered, forwarded,
+    /\ UNCHANGED <<cfg, loopQ, seen, sent, valQ, worker, vUsed, orphans, local, delivered, forwarded,
                    valCalls, verdictOf, expect, origin, copiesIn, qfull>>
 
 OrphanDone(o) ==
     /\ o \in orphans
     /\ orphans' = orphans \ {o}
     /\ vUsed' = [vUsed EXCEPT ![o.v] = @ - 1]
-    /\ UNCHANGED <<cfg, seen, sent, valQ, worker, jobs, gUsed, sendQ, local, outs, mons>>
+    /\ UNCHANGED <<cfg, loopQ, seen, sent, valQ, worker, jobs, gUsed, sendQ, local, outs, mons>>
 
 -----------------------------------------------------------------------------
 \* local publish (Topic.Publish on the caller's goroutine)
@@ -360,7 +387,7 @@ OrphanDone(o) ==
 LocalStart(c, id) ==
     /\ local[c].st = "idle" /\ id \in LocalIds
     /\ local' = [local EXCEPT ![c].st = "mark", ![c].id = id]
-    /\ UNCHANGED <<cfg, seen, sent, valQ, worker, jobs, gUsed, vUsed, orphans, sendQ, outs, mons>>
+    /\ UNCHANGED <<cfg, loopQ, seen, sent, valQ, worker, jobs, gUsed, vUsed, orphans, sendQ, outs, mons>>
 
 LocalMarkSeen(c) ==
     /\ local[c].st = "mark"
@@ -372,7 +399,7 @@ LocalMarkSeen(c) ==
          ELSE /\ seen' = seen \cup {id}
               /\ origin' = [origin EXCEPT ![id] = "local"]
               /\ local' = [local EXCEPT ![c].st = IF cfg.nv = 0 THEN "fin" ELSE "inline", ![c].k = 1]
-    /\ UNCHANGED <<cfg, sent, valQ, worker, jobs, gUsed, vUsed, orphans, sendQ, outs,
+    /\ UNCHANGED <<cfg, loopQ, sent, valQ, worker, jobs, gUsed, vUsed, orphans, sendQ, outs,
                    valCalls, verdictOf, expect, finals, copiesIn, qfull>>
 
 \* synchronous = true: every validator runs inline, in registration order
@@ -384,7 +411,7 @@ LocalInline(c, vd) ==
          /\ local' = [local EXCEPT ![c].res = IF r = "R" THEN "R" ELSE IF r = "I" THEN "I" ELSE @,
                                    ![c].st  = IF r = "R" \/ x.k = cfg.nv THEN "fin" ELSE "inline",
                                    ![c].k   = @ + 1]
-    /\ UNCHANGED <<cfg, seen, sent, valQ, worker, jobs, gUsed, vUsed, orphans, sendQ, outs, finals, origin, copiesIn, qfull>>
+    /\ UNCHANGED <<cfg, loopQ, seen, sent, valQ, worker, jobs, gUsed, vUsed, orphans, sendQ, outs, finals, origin, copiesIn, qfull>>
 
 LocalFinish(c) ==
     /\ local[c].st = "fin"
@@ -399,7 +426,7 @@ LocalFinish(c) ==
                         /\ local' = [local EXCEPT ![c].st = "ret", ![c].ret = "nil", ![c].sq = TRUE]
                    ELSE /\ local' = [local EXCEPT ![c].st = "ret", ![c].ret = "err"]
                         /\ UNCHANGED sendQ
-    /\ UNCHANGED <<cfg, seen, sent, valQ, worker, jobs, gUsed, vUsed, orphans, outs,
+    /\ UNCHANGED <<cfg, loopQ, seen, sent, valQ, worker, jobs, gUsed, vUsed, orphans, outs,
                    valCalls, verdictOf, expect, origin, copiesIn, qfull>>
 
 -----------------------------------------------------------------------------
@@ -407,9 +434,11 @@ LocalFinish(c) ==
 \* validator timeouts are AsyncTimeout / the verdict of WorkerInline); kept so that extensions have it.
 Tick == UNCHANGED vars
 
+Batches == UNION {[1..n -> Ids] : n \in 1..MaxBatch}
+
 Next ==
-    \/ \E p \in Fwd, id \in Ids : LoopArrive(p, id)
-    \/ LoopPublish
+    \/ \E p \in Fwd, b \in Batches : LoopArrive(p, b)
+    \/ LoopPush \/ LoopPublish
     \/ \E w \in Workers : WorkerTake(w) \/ WorkerSig(w) \/ WorkerMarkSeen(w) \/ WorkerLateMark(w) \/ WorkerFinish(w)
     \/ \E w \in Workers, vd \in Verdicts : WorkerInline(w, vd)
     \/ \E j \in jobs : AsyncStart(j) \/ AsyncCombine(j)
